@@ -786,4 +786,117 @@ def serveDNSCryptE2E (t : Transport) (um : Option Msg) (o : Outcome) : Sees :=
       { s with status := if t = .dnscryptTCP then stOpen else stNone }
     else droppedDC t
 
+/-! ## Round 4: fault and life-cycle paths
+
+### A handler that panics
+
+Every per-request entry point defers `handlePanicAndRecover` (`serveUDPPacket`,
+`serveTCPMessage`, `ServeHTTP`, `serveQUICStreamAsync`) — and, since `fix: dnsserver:
+recover from handler panics in the dnscrypt server`, `dnsCryptHandler.ServeDNS`, which the
+ameshkov/dnscrypt library calls on goroutines of its own without any recovery.  What the
+client sees after a recovered panic differs per transport because the code that follows the
+handler (`!written` ⇒ close, SERVFAIL for non-writers, `http.Error`) is skipped. -/
+
+/-- How a call of the handler ends: it returns, or it panics — possibly after it has
+already handed a response to the writer. -/
+inductive HRun
+  | returns (o : Outcome)
+  | panics (w : Option Resp)
+deriving DecidableEq, Repr
+
+/-- One request as its client sees it, and whether the process still runs afterwards. -/
+structure SeesF where
+  sees : Sees
+  up : Bool
+deriving DecidableEq, Repr
+
+/-- Is the handler consulted at all for this unpacked request on this transport? -/
+def handlerRuns (t : Transport) (m : Msg) : Bool :=
+  decide (acceptMsg m = .accept) && !(decide (t = .doq) && !validQUICMsg m)
+
+/-- After a recovered panic: the directly writing transports have delivered what the handler
+wrote before it panicked and leave the connection open (`serveTCPMessage`'s close is skipped);
+DoH ends in the empty HTTP 200 of `panicked`; the DoQ stream is closed by the deferred
+`stream.Close` without data; DNSCrypt sends nothing. -/
+def afterPanic (t : Transport) (w : Option Resp) (wok : Bool) : Sees :=
+  match t with
+  | .udp => { status := stNone, msgs := if wok then w.toList else [] }
+  | .tcp | .dot => { status := stOpen, msgs := if wok then w.toList else [] }
+  | .dohPost | .dohGet | .dohJSON => panicked
+  | .doq => { status := stOpen, msgs := [], fin := true }
+  | .dnscryptUDP | .dnscryptTCP => { status := stNone, msgs := [] }
+
+/-- `dcRecovers = true` is the repaired `dnsCryptHandler.ServeDNS`; before the fix a panic
+on a DNSCrypt goroutine was nobody's to recover and ended the process. -/
+def serveMsgF (dcRecovers : Bool) (t : Transport) (m : Msg) (h : HRun) (wok : Bool) : SeesF :=
+  match h with
+  | .returns o => { sees := serveMsg t m o wok, up := true }
+  | .panics w =>
+    if handlerRuns t m then { sees := afterPanic t w wok, up := dcRecovers || !t.isDNSCrypt }
+    else { sees := serveMsg t m .silent wok, up := true }
+
+structure Req where
+  t : Transport
+  m : Msg
+  h : HRun
+  wok : Bool
+deriving DecidableEq, Repr
+
+/-- Requests (of any clients, on any transports) served by one process, in the order in which
+they are completed; `none` = the process is gone. -/
+def serveProc (dc : Bool) : Bool → List Req → List (Option Sees)
+  | _, [] => []
+  | false, _ :: rs => none :: serveProc dc false rs
+  | true, r :: rs =>
+    some (serveMsgF dc r.t r.m r.h r.wok).sees :: serveProc dc (serveMsgF dc r.t r.m r.h r.wok).up rs
+
+/-! ### Start, Shutdown, Start again
+
+`ServerDNS`, `ServerTLS` and `ServerQUIC` hand every datagram / connection / stream to an
+ants worker pool.  `Shutdown` releases the pool; a released pool refuses every task with
+`ErrPoolClosed`, which the accept loops treat as fatal (the loop ends, its deferred `Close`
+shuts the socket) after `wg.Add(1)` has already been done.  Since `fix: dnsserver: reopen the
+worker pool when a server is started again` `Start` calls `Reboot` (`reboot = true`). -/
+
+inductive LOp | start | shutdown | arrive
+deriving DecidableEq, Repr
+
+inductive LObs | ok | errAlreadyStarted | errNotStarted | hung | served | unanswered | refused
+deriving DecidableEq, Repr
+
+structure LState where
+  started : Bool
+  /-- the accept loop runs on an open socket -/
+  listening : Bool
+  poolOpen : Bool
+  /-- `wg.Add(1)` without a matching `Done` -/
+  leaked : Nat
+deriving DecidableEq, Repr
+
+def lInit : LState := { started := false, listening := false, poolOpen := true, leaked := 0 }
+
+/-- `pooled = false`: `ServerHTTPS`, `ServerDNSCrypt` (no worker pool of their own). -/
+def lStep (reboot pooled : Bool) (s : LState) : LOp → LState × LObs
+  | .start =>
+    if s.started then (s, .errAlreadyStarted)
+    else ({ s with started := true, listening := true, poolOpen := s.poolOpen || reboot }, .ok)
+  | .shutdown =>
+    if !s.started then (s, .errNotStarted)
+    else ({ s with started := false, listening := false, poolOpen := !pooled },
+          if s.leaked = 0 then .ok else .hung)
+  | .arrive =>
+    if !s.listening then (s, .refused)
+    else if s.poolOpen then (s, .served)
+    else ({ s with listening := false, leaked := s.leaked + 1 }, .unanswered)
+
+def lRun (reboot pooled : Bool) : LState → List LOp → LState × List LObs
+  | s, [] => (s, [])
+  | s, op :: ops =>
+    ((lRun reboot pooled (lStep reboot pooled s op).1 ops).1,
+     (lStep reboot pooled s op).2 :: (lRun reboot pooled (lStep reboot pooled s op).1 ops).2)
+
+/-- The invariant of the repaired life cycle. -/
+def LGood (s : LState) : Prop := s.leaked = 0 ∧ (s.started = true → s.listening = true ∧ s.poolOpen = true) ∧
+  (s.started = false → s.listening = false)
+
 end Agd.Serve
